@@ -16,17 +16,6 @@ attribute [local instance] starConj
 section
 variable {K : Type} [Field K] [StarRing K] [HasRe K]
 
-private theorem of_infer {e : LExpr K} {m : Meta} (hm : infer e = .ok m) :
-    ∃ o, build e = .ok o ∧ o.md = m ∧ run e = o.impl := by
-  unfold infer inferC at hm
-  unfold run runC build
-  cases hb : buildC Cfg.fixed e with
-  | error k => simp [hb, Except.map] at hm
-  | ok o =>
-    simp only [hb, Except.map] at hm
-    injection hm with hm
-    exact ⟨o, rfl, hm, rfl⟩
-
 /-- **Forward map.**  For every linear expression tree that scico accepts, the closure it builds
     (generic or closed-form, whatever the classes of the operands and their order) computes
     `x ↦ den e · x`, an array of the declared output size. -/
@@ -141,7 +130,7 @@ section examples
 instance : StarRing ℚ := starRingOfComm
 instance : HasRe ℚ := ⟨id⟩
 
-theorem realK_rat : RealK ℚ := fun _ => ⟨rfl, rfl⟩
+example : RealK ℚ := fun _ => ⟨rfl, rfl⟩
 
 /-- `(2·I − D) @ M.H + M.gram_op` on ℚ³ -/
 def exM : LExpr ℚ := .mat 3 3 .f64 (fun i j => (i : ℚ) + 2 * j)
@@ -161,7 +150,7 @@ example : PlainDiagProducts exE := by
   subst hb
   rcases hfam with h | h | h <;> simp [opH, matHop, rematrix, mkMat, Obj.cls] at h
 
-/-- scico accepts the expression (so `C05_run_eq_den` applies to it with `realK_rat`) -/
+/-- scico accepts the expression (so `C05_run_eq_den` applies to it, ℚ being real) -/
 example : ∃ m, infer exE = .ok m := ⟨_, rfl⟩
 /-- a shape mismatch: `M (3×3) + Identity((2,))` -/
 example : dims exM ≠ dims (LExpr.ident (.plain [2]) .f64 : LExpr ℚ) := by decide
